@@ -8,6 +8,9 @@
 (***************************************************************************)
 EXTENDS SnapInstall
 
+\* the simulation configuration places the config key kn1 in the user namespace n1 (see SimStateMachine.tla)
+CfgTenantNs(k) == IF k = "kn1" THEN "n1" ELSE IF k = "kn2" THEN "n2" ELSE ""
+
 VARIABLE pending
 
 \* (a sequence, so that kinds can be weighted)
